@@ -1502,6 +1502,7 @@ func runC10(c *Checker) {
 		ruleNonSynIgnored(c, fn)
 	}
 	ruleHandshakeExtras(c, ch, sh)
+	ruleFreshSYN(c, sh)
 	// the constructors hand out a connection only after their handshake succeeded: its error is
 	// tested, the failing leg returns it, and start() runs on the success leg only
 	for _, pr := range [][2]string{{"gbn.NewClientConn", "clientHandshake"}, {"gbn.NewServerConn", "serverHandshake"}} {
